@@ -495,7 +495,10 @@ Definition vnode_text (v : gval) (i : Z) : list Z := repr_model v ++ dec i.
 
 Definition pval_agrees (e : pval) : bool :=
   zs_eqb (repr_model (pv e)) (p_get e) && zs_eqb (repr_model (pv e)) (p_direct e) &&
-  match inner_model prime (pv e) with Some s => zs_eqb s (p_inner e) | None => true end &&
+  match p_inner e with
+  | [] => true          (* not observed: the ring did not hash a second string of the form <digits>:<text> *)
+  | i => match inner_model prime (pv e) with Some s => zs_eqb s i | None => true end
+  end &&
   forallb (fun it => zs_eqb (vnode_text (pv e) (fst it)) (snd it)) (p_adds e) &&
   forallb (fun it => zs_eqb (vnode_text (pv e) (fst it)) (snd it)) (p_rems e).
 
